@@ -51,6 +51,9 @@ def script_text(f, daggify):
 
 def z3_read(text):
     ctx = z3.main_ctx()
+    # pySMT's own logic names for custom sorts / constant arrays (QF_BOOLt, QF_ALIA*) are unknown to z3, which would only print
+    # a warning and ignore the line
+    text = re.sub(r"^\(set-logic [A-Z_]*[t*]+\)\n", "", text)
     return z3.parse_smt2_string(text, ctx=ctx)
 
 
